@@ -3,3 +3,13 @@ add("C01", "reference-model postcondition monitor at Grid.diff/interp/min/max ov
     "Every observed call is compared bit-exactly (exact-safe data) with an independent geometric stencil model; "
     "held means: no disagreement on the thousands of distinct (operator, shift, rule, spelling, layout) classes "
     "actually executed. Universal over an infinite input space, so exploration is the honest level.", "2/C01")
+add("C02", "reference-model postcondition monitor at xgcm.padding.pad (resolution model + hand-written padding), spelling-differential",
+    "Every observed pad() on a simple grid is compared cell by cell with the model for the rule/fill the statement says is in "
+    "force; scalar vs mapping spellings are executed side by side and must agree bit-for-bit. One open finding "
+    "(periodic list) is matched by mechanism.", "2/C02")
+add("C09", "reference-model postcondition + metamorphic identities observed on real calls (inverse, order independence, cumint/integrate)",
+    "cumsum results are compared bit-exactly with a geometric running-sum model and the four stated identities are "
+    "checked on the observed results of the composed calls.", "2/C09")
+add("C10", "acceptable-set oracle for get_metric + definitional identities for integrate/average/derivative/metric_weighted on observed results",
+    "The metric returned must be one of the candidates the statement allows for the random registry (with warning and "
+    "broadcastability), and the derived operations must equal their definition in terms of that metric.", "2/C10")
